@@ -114,7 +114,7 @@ def scale_cases(draw):
 
 @st.composite
 def shift_cases(draw):
-    cfg = draw(gen.configs())
+    cfg = draw(gen.configs(gammas=[g for g in gen.GAMMA_NAMES if g != "mu_dep"]))  # mu_dep is (deliberately) not shift-invariant
     n = draw(st.integers(2, 8))
     k = draw(st.sampled_from([1, 1, 2, 2, 3, 4, 8]))
     g = draw(gen.games(cfg=cfg))
